@@ -228,7 +228,9 @@ class MTSPEnv(RL4COEnvBase):
     def _get_reward(self, td, actions=None) -> TensorDict:
         # With minmax, get the maximum distance among subtours, calculated in the model
         if self.cost_type == "minmax":
-            return td["reward"].squeeze(-1)
+            # one value per instance: keep the batch dimension also for a batch of a single instance
+            reward = td["reward"]
+            return reward.squeeze(-1) if reward.dim() > len(td.batch_size) else reward
 
         # With distance, same as TSP
         elif self.cost_type == "sum":
